@@ -8,8 +8,8 @@ class Prop(C02):
     props_file = 'Props/C06.v'
     required_theorems = ['dest_ids_unique', 'change_carries_current_list', 'skip_flags_sound', 'silent_prefix_unchanged',
                          'fold_all_changes_eq_locrib', 'best_only_consumer_correct', 'addpath_consumer_correct',
-                         'end_deferral_emits_all', 'deferred_insert_reports_only_withdrawal', 'addpath_window_eq_limited',
-                         'replaced_path_id_sound', 'alloc_lowest_free']
+                         'end_deferral_emits_all', 'quiet_while_deferring', 'addpath_window_eq_limited',
+                         'replaced_path_id_sound', 'lpids_unique', 'delta_exporter_sound', 'alloc_lowest_free']
     extra_targets = ['Model/Rib.vo']
     correspondence_name = 'Model/Rib.v step (notifications and Loc-RIB) vs rustybgp_table::Table (harness/hx-rib)'
     trusted_base = C02.trusted_base + [
@@ -29,10 +29,10 @@ class Prop(C02):
         cases = []
         for k in range(n):
             if k % 6 == 3:
-                # deferral-heavy histories: changes leak out of remove / next-hop flips while inserts are held back,
-                # and filtered or next-hop-invalid replacements take eligible paths away again
+                # deferral-heavy histories: a start-up deferral during which paths come, go, lose their next hop
+                # and are replaced by filtered ones, ended (and sometimes ended again) by end_deferral
                 w = dict(ins=10, rem=3, drop=1, dropk=1, restale=1, nhv=4, reconnect=0, deferral=3)
-                cases.append(R.gen_history(rng, rng.randint(5, 40), weights=w))
+                cases.append(R.gen_history(rng, rng.randint(5, 40), weights=w, deferral=True))
             else:
                 cases.append(R.gen_history(rng, rng.randint(5, 40), evpn=(k % 9 == 8), deferral=(k % 3 == 0), limits=(k % 4 == 1)))
         return cases
